@@ -6,7 +6,7 @@ use quil_rs::instruction::{
     TargetPlaceholder,
 };
 use quil_rs::Program;
-use qvh::progs::text_of;
+use qvh::progs::{qubit_id, target_id, text_of};
 use qvh::*;
 use std::collections::HashMap;
 use std::str::FromStr;
@@ -14,8 +14,9 @@ use std::str::FromStr;
 /// Placeholder identities numbered by first occurrence.
 #[derive(Default)]
 struct Names {
-    targets: HashMap<TargetPlaceholder, u64>,
-    qubits: HashMap<QubitPlaceholder, u64>,
+    // keyed by the harness's own identity (Arc pointer bits), never by the types' ==/Hash
+    targets: HashMap<usize, u64>,
+    qubits: HashMap<usize, u64>,
 }
 
 impl Names {
@@ -24,7 +25,7 @@ impl Names {
             Target::Fixed(s) => tagged("fixed", vec![st(s.clone())]),
             Target::Placeholder(p) => {
                 let n = self.targets.len() as u64;
-                let k = *self.targets.entry(p.clone()).or_insert(n);
+                let k = *self.targets.entry(target_id(p)).or_insert(n);
                 tagged("ph", vec![nat(k), st(p.as_inner())])
             }
         }
@@ -35,7 +36,7 @@ impl Names {
             Qubit::Variable(v) => tagged("v", vec![st(v.clone())]),
             Qubit::Placeholder(p) => {
                 let n = self.qubits.len() as u64;
-                let k = *self.qubits.entry(p.clone()).or_insert(n);
+                let k = *self.qubits.entry(qubit_id(p)).or_insert(n);
                 tagged("p", vec![nat(k)])
             }
         }
@@ -158,7 +159,7 @@ fn resolve_case(
         .iter()
         .map(|(ph, l)| {
             let n = names.targets.len() as u64;
-            let k = *names.targets.entry(ph.clone()).or_insert(n);
+            let k = *names.targets.entry(target_id(ph)).or_insert(n);
             list(vec![nat(k), st(l.clone())])
         })
         .collect();
@@ -166,7 +167,7 @@ fn resolve_case(
         .iter()
         .map(|(ph, v)| {
             let n = names.qubits.len() as u64;
-            let k = *names.qubits.entry(ph.clone()).or_insert(n);
+            let k = *names.qubits.entry(qubit_id(ph)).or_insert(n);
             list(vec![nat(k), nat(*v)])
         })
         .collect();
@@ -174,23 +175,23 @@ fn resolve_case(
         "resolve",
         vec![atom(mode.name()), tagged("body", body_sexp), tagged("tmap", tm), tagged("qmap", qm)],
     );
-    let tmap: HashMap<TargetPlaceholder, String> = tmap.iter().cloned().collect();
-    let qmap: HashMap<QubitPlaceholder, u64> = qmap.iter().cloned().collect();
+    let tmap: HashMap<usize, String> = tmap.iter().map(|(p, l)| (target_id(p), l.clone())).collect();
+    let qmap: HashMap<usize, u64> = qmap.iter().map(|(p, v)| (qubit_id(p), *v)).collect();
     ctx.case(input, || {
         let mut p = p.clone();
         match mode {
             Mode::Default => p.resolve_placeholders(),
             Mode::Custom => p.resolve_placeholders_with_custom_resolvers(
-                Box::new(move |k| tmap.get(k).cloned()),
-                Box::new(move |k| qmap.get(k).copied()),
+                Box::new(move |k| tmap.get(&target_id(k)).cloned()),
+                Box::new(move |k| qmap.get(&qubit_id(k)).copied()),
             ),
             Mode::CustomTargets => {
                 let qr = p.default_qubit_resolver();
-                p.resolve_placeholders_with_custom_resolvers(Box::new(move |k| tmap.get(k).cloned()), qr)
+                p.resolve_placeholders_with_custom_resolvers(Box::new(move |k| tmap.get(&target_id(k)).cloned()), qr)
             }
             Mode::CustomQubits => {
                 let tr = p.default_target_resolver();
-                p.resolve_placeholders_with_custom_resolvers(tr, Box::new(move |k| qmap.get(k).copied()))
+                p.resolve_placeholders_with_custom_resolvers(tr, Box::new(move |k| qmap.get(&qubit_id(k)).copied()))
             }
         }
         tagged("body", project_body(&mut names, &p))
@@ -263,7 +264,7 @@ fn seq_case(ctx: &mut Ctx, defs: &[Instruction], body: &[Instruction], calls: &[
             .iter()
             .map(|(ph, l)| {
                 let n = names.targets.len() as u64;
-                let k = *names.targets.entry(ph.clone()).or_insert(n);
+                let k = *names.targets.entry(target_id(ph)).or_insert(n);
                 list(vec![nat(k), st(l.clone())])
             })
             .collect();
@@ -272,7 +273,7 @@ fn seq_case(ctx: &mut Ctx, defs: &[Instruction], body: &[Instruction], calls: &[
             .iter()
             .map(|(ph, v)| {
                 let n = names.qubits.len() as u64;
-                let k = *names.qubits.entry(ph.clone()).or_insert(n);
+                let k = *names.qubits.entry(qubit_id(ph)).or_insert(n);
                 list(vec![nat(k), nat(*v)])
             })
             .collect();
@@ -283,21 +284,21 @@ fn seq_case(ctx: &mut Ctx, defs: &[Instruction], body: &[Instruction], calls: &[
         let mut p = p.clone();
         let mut steps = vec![used_sexp(&mut names, &p)];
         for c in calls {
-            let tmap: HashMap<TargetPlaceholder, String> = c.tmap.iter().cloned().collect();
-            let qmap: HashMap<QubitPlaceholder, u64> = c.qmap.iter().cloned().collect();
+            let tmap: HashMap<usize, String> = c.tmap.iter().map(|(p, l)| (target_id(p), l.clone())).collect();
+            let qmap: HashMap<usize, u64> = c.qmap.iter().map(|(p, v)| (qubit_id(p), *v)).collect();
             match c.mode {
                 Mode::Default => p.resolve_placeholders(),
                 Mode::Custom => p.resolve_placeholders_with_custom_resolvers(
-                    Box::new(move |k| tmap.get(k).cloned()),
-                    Box::new(move |k| qmap.get(k).copied()),
+                    Box::new(move |k| tmap.get(&target_id(k)).cloned()),
+                    Box::new(move |k| qmap.get(&qubit_id(k)).copied()),
                 ),
                 Mode::CustomTargets => {
                     let qr = p.default_qubit_resolver();
-                    p.resolve_placeholders_with_custom_resolvers(Box::new(move |k| tmap.get(k).cloned()), qr)
+                    p.resolve_placeholders_with_custom_resolvers(Box::new(move |k| tmap.get(&target_id(k)).cloned()), qr)
                 }
                 Mode::CustomQubits => {
                     let tr = p.default_target_resolver();
-                    p.resolve_placeholders_with_custom_resolvers(tr, Box::new(move |k| qmap.get(k).copied()))
+                    p.resolve_placeholders_with_custom_resolvers(tr, Box::new(move |k| qmap.get(&qubit_id(k)).copied()))
                 }
             }
             // the definitions (calibrations) must be left exactly as they were: their qubits, by the harness's traversal
@@ -328,14 +329,14 @@ fn tables_case(ctx: &mut Ctx, body: &[Instruction], tph: &[TargetPlaceholder], q
         .iter()
         .map(|ph| {
             let n = names.targets.len() as u64;
-            *names.targets.entry(ph.clone()).or_insert(n)
+            *names.targets.entry(target_id(ph)).or_insert(n)
         })
         .collect();
     let qk: Vec<u64> = qph
         .iter()
         .map(|ph| {
             let n = names.qubits.len() as u64;
-            *names.qubits.entry(ph.clone()).or_insert(n)
+            *names.qubits.entry(qubit_id(ph)).or_insert(n)
         })
         .collect();
     let input = tagged(
@@ -375,20 +376,21 @@ fn position_classes(body: &[Instruction]) -> (Vec<QubitPlaceholder>, Vec<QubitPl
         let qs: Vec<Qubit> = all_qubits_mut(&mut c).into_iter().map(|q| q.clone()).collect();
         for (k, q) in qs.iter().enumerate() {
             if let Qubit::Placeholder(p) = q {
-                if !all.contains(p) {
+                let has = |v: &Vec<QubitPlaceholder>| v.iter().any(|x| qubit_id(x) == qubit_id(p));
+                if !has(&all) {
                     all.push(p.clone());
                 }
-                if k == 0 && !first.contains(p) {
+                if k == 0 && !has(&first) {
                     first.push(p.clone());
                 }
-                if k + 1 == qs.len() && !last.contains(p) {
+                if k + 1 == qs.len() && !has(&last) {
                     last.push(p.clone());
                 }
             }
         }
     }
-    let never_last = all.iter().filter(|p| !last.contains(p)).cloned().collect();
-    let never_first = all.iter().filter(|p| !first.contains(p)).cloned().collect();
+    let never_last = all.iter().filter(|p| !last.iter().any(|x| qubit_id(x) == qubit_id(p))).cloned().collect();
+    let never_first = all.iter().filter(|p| !first.iter().any(|x| qubit_id(x) == qubit_id(p))).cloned().collect();
     (never_last, never_first, all)
 }
 
@@ -438,8 +440,10 @@ struct Pool {
     tph: Vec<TargetPlaceholder>,
 }
 
-const FIXED_LABELS: &[&str] = &["a", "a_0", "a_1", "a_2", "b", "b_0", "a_0_0", "loop", "b_1"];
-const BASES: &[&str] = &["a", "a", "b", "a_0", "loop", "c"];
+const FIXED_LABELS: &[&str] = &["a", "a_0", "a_1", "a_2", "b", "b_0", "a_0_0", "loop", "b_1", "_0", "_1", "loop_0", "x_0", ""];
+// degenerate bases: empty (several distinct placeholders share it), one character, equal to a fixed label, equal to
+// another placeholder's resolved name
+const BASES: &[&str] = &["a", "a", "b", "a_0", "loop", "c", "", "", "x", "loop_0", "_0", "_1", "_"];
 
 impl Gen {
     fn new() -> Self {
@@ -689,6 +693,49 @@ fn run(ctx: &mut Ctx) {
             resolve_case(ctx, &body, Mode::Default, &[], &[]);
             seq_case(ctx, &[], &body, &[Call { mode: Mode::Custom, tmap: vec![], qmap: vec![(qs[0].clone(), 1), (qs[1].clone(), 1), (qs[2].clone(), 0)] },
                 Call { mode: Mode::Default, tmap: vec![], qmap: vec![] }]);
+        }
+    }
+
+    // 3c. degenerate base labels: several DISTINCT placeholders sharing the empty base (an empty String owns no
+    //     buffer), one-character bases, bases equal to a fixed label / to another placeholder's resolved name,
+    //     very long bases — through every entry point
+    {
+        let tp = |b: &str| TargetPlaceholder::new(b.to_string());
+        let long = "L".repeat(300);
+        let groups: Vec<Vec<TargetPlaceholder>> = vec![
+            vec![tp(""), tp(""), tp("")],
+            vec![tp(""), tp("_0"), tp("")],
+            vec![tp("x"), tp("x"), tp("")],
+            vec![tp("loop"), tp("loop_0"), tp("loop")],
+            vec![tp(&long), tp(&long)],
+            vec![tp("_"), tp(""), tp("__0")],
+            (0..40).map(|_| tp("")).collect(),
+        ];
+        for ts in &groups {
+            let t = |i: usize| Target::Placeholder(ts[i % ts.len()].clone());
+            let mut bodies: Vec<Vec<Instruction>> = vec![
+                (0..ts.len()).map(|i| label(t(i))).collect(),
+                vec![label(t(0)), jump(t(1)), label(t(1)), jump(t(0)), label(t(2))],
+                vec![label(fixed("_0")), label(t(0)), jump(fixed("_1")), label(t(1)), label(fixed("loop_0")), label(t(2))],
+                vec![jump(t(2)), label(fixed("")), label(t(1)), x(Qubit::Fixed(0)), label(t(0)), label(fixed("x_0"))],
+            ];
+            bodies.push(bodies[1].iter().rev().cloned().collect());
+            for b in &bodies {
+                resolve_case(ctx, b, Mode::Default, &[], &[]);
+                resolve_case(ctx, b, Mode::Custom, &[(ts[0].clone(), "_0".to_string())], &[]);
+                resolve_case(ctx, b, Mode::CustomTargets, &[(ts[ts.len() - 1].clone(), "custom".to_string())], &[]);
+                resolve_case(ctx, b, Mode::CustomQubits, &[], &[]);
+                tables_case(ctx, b, ts, &[]);
+                seq_case(ctx, &[], b, &[
+                    Call { mode: Mode::Custom, tmap: vec![(ts[0].clone(), "_1".to_string())], qmap: vec![] },
+                    Call { mode: Mode::Default, tmap: vec![], qmap: vec![] },
+                ]);
+                seq_case(ctx, &[], b, &[
+                    Call { mode: Mode::CustomTargets, tmap: vec![(ts[1 % ts.len()].clone(), "".to_string())], qmap: vec![] },
+                    Call { mode: Mode::Default, tmap: vec![], qmap: vec![] },
+                    Call { mode: Mode::Default, tmap: vec![], qmap: vec![] },
+                ]);
+            }
         }
     }
 
